@@ -121,10 +121,11 @@ def run(db, cx):
     # ------------------------------------------- rule 2: deposit<->subtract pair
     n_inst = 0
     for f in db.get(ELOSS):
-        n_inst += 1
         subs = list(f.calls(PTV + "::subtract_energy"))
         deps = list(f.calls(PSV + "::deposit_energy"))
-        cx.require(subs, "ElossApplier no longer calls subtract_energy (%s)" % f.inst)
+        if not subs and not deps:
+            continue    # e.g. NoELoss: the loss is a constant zero and the arm is dead code
+        n_inst += 1
         for (bs, i_s, es) in subs:
             svars = local_refs(es["args"][0].get("refs", []))
             ok = False
